@@ -180,6 +180,58 @@ def notes_through_conflict(stg):
     return n, failures
 
 
+def edit_fields(stg):
+    """editing commands change only the fields the user asked to change: name / e-mail / date /
+    message are compared one by one around `stg edit` and `stg refresh` with explicit options,
+    on patches whose author date (and zone) differs from the committer date"""
+    failures = []
+    n = 0
+    fmt = "%an%x00%ae%x00%ad%x00%B"
+
+    def fields(r, nm):
+        out = r.git(["log", "-1", "--date=raw", "--format=" + fmt, "refs/patches/main/" + nm]).stdout
+        an, ae, ad, msg = out.split("\0", 3)
+        return {"name": an, "email": ae, "date": ad, "message": msg.rstrip("\n")}
+
+    with repo.Scratch("c08e") as r:
+        r.init_repo()
+        r.stg(stg, ["init"])
+        for i, ident in enumerate(IDENTITIES[:3]):
+            r.write("e%d.txt" % i, "%d\n" % i)
+            r.git(["add", "-A"])
+            r.stg(stg, ["new", "--author", "%s <%s>" % ident[:2], "--authdate", ident[2],
+                        "-m", "subject %d\n\nbody %d\n\nSigned-off-by: S <s@o>" % (i, i), "e%d" % i])
+            r.stg(stg, ["refresh"])
+        cases = [("e0", ["edit", "--author", "New Name <new@example.org>", "e0"], {"name": "New Name", "email": "new@example.org"}),
+                 ("e1", ["edit", "--authname", "Only Name", "e1"], {"name": "Only Name"}),
+                 ("e2", ["edit", "--authemail", "only@mail.example", "e2"], {"email": "only@mail.example"}),
+                 ("e0", ["edit", "--authdate", "1000000000 +0200", "e0"], {"date": "1000000000 +0200"}),
+                 ("e1", ["edit", "-m", "new subject\n\nnew body", "e1"], {"message": "new subject\n\nnew body"}),
+                 ("e2", ["edit", "--sign", "e2"], None),
+                 ("e2", ["refresh", "--author", "Refresh Er <r@e>"], {"name": "Refresh Er", "email": "r@e"}),
+                 ("e1", ["edit", "--authname", "Only Name", "e1"], {})]          # nothing changes
+        for nm, argv, want in cases:
+            before = fields(r, nm)
+            oid_before = r.rev("refs/patches/main/" + nm)
+            p = r.stg(stg, argv)
+            n += 1
+            if p.returncode != 0:
+                failures.append({"argv": argv, "why": "editing command failed", "stderr": p.stderr[-200:]})
+                continue
+            after = fields(r, nm)
+            if want is None:
+                # --sign adds a trailer: author fields must stay
+                want = {"message": after["message"]}
+            for k in ("name", "email", "date", "message"):
+                exp = want.get(k, before[k])
+                if after[k] != exp:
+                    failures.append({"argv": argv, "patch": nm, "why": "field %r is %r, expected %r (only %r asked for)"
+                                     % (k, after[k], exp, sorted(want))})
+            if want == {} and r.rev("refs/patches/main/" + nm) != oid_before:
+                failures.append({"argv": argv, "patch": nm, "why": "an edit that changes nothing created a new commit"})
+    return n, failures
+
+
 def run(ctx):
     histcheck.run_property(ctx, PROFILES, ORACLES, n_quick=32, n_thorough=500, nsteps=32 if ctx.quick() else 45,
                            own_oracle="c08")
@@ -187,8 +239,9 @@ def run(ctx):
     known = {k["id"]: k for k in histcheck.load_known("C08")}
     n, failures = end_to_end(ctx, stg)
     n2, f2 = notes_through_conflict(stg)
-    n += n2
-    failures += f2
+    n3, f3 = edit_fields(stg)
+    n += n2 + n3
+    failures += f2 + f3
     ctx.coverage["end_to_end_operations"] = n
     ctx.coverage["evaluations"] = ctx.coverage.get("evaluations", 0) + n
     for f in failures[:3]:
